@@ -7,6 +7,8 @@ process-wide by the virtual clock before ``asyncfix`` is imported.
 """
 import asyncio
 import heapq
+import signal
+import threading
 import time as _time
 from asyncio import events
 
@@ -38,6 +40,14 @@ class LiveLock(Exception):
     """run_ready exceeded its step limit."""
 
 
+class HardSpin(BaseException):
+    """Raised by the CPU-time watchdog inside a callback that never returns to the loop (a coroutine spinning
+    without suspending): not an Exception, so the library's handlers do not swallow it."""
+
+
+SPIN_CPU_SECONDS = 20.0  # CPU time (ITIMER_VIRTUAL: independent of machine load) one run_ready() may burn
+
+
 class VLoop(asyncio.BaseEventLoop):
     """Event loop driven by hand."""
 
@@ -46,6 +56,11 @@ class VLoop(asyncio.BaseEventLoop):
         self.errors = []  # contexts passed to the exception handler
         self.set_exception_handler(self._on_error)
         self.steps = 0
+        self.spun = False
+
+    def _on_vtalarm(self, signum, frame):
+        self.spun = True
+        raise HardSpin("a callback burnt %.0f s of CPU without returning to the event loop" % SPIN_CPU_SECONDS)
 
     # -- BaseEventLoop plumbing -------------------------------------------
     def time(self):
@@ -83,22 +98,50 @@ class VLoop(asyncio.BaseEventLoop):
             if h._cancelled:
                 continue
             self.steps += 1
-            h._run()
+            arm = threading.current_thread() is threading.main_thread()
+            if arm:
+                old = signal.signal(signal.SIGVTALRM, self._on_vtalarm)
+                signal.setitimer(signal.ITIMER_VIRTUAL, SPIN_CPU_SECONDS)
+            try:
+                h._run()
+            except HardSpin:
+                self.spun = True
+            finally:
+                if arm:
+                    signal.setitimer(signal.ITIMER_VIRTUAL, 0)
+                    signal.signal(signal.SIGVTALRM, old)
+            if self.spun:
+                raise LiveLock("a callback never returned to the event loop (spinning coroutine)")
             return True
         return False
 
     def run_ready(self, limit=20000):
         """Run callbacks until the ready queue is empty (timers are NOT fired)."""
         n = 0
-        while self._ready:
-            h = self._ready.popleft()
-            if h._cancelled:
-                continue
-            h._run()
-            n += 1
-            if n > limit:
-                raise LiveLock(f"more than {limit} callbacks without quiescence")
+        arm = bool(self._ready) and threading.current_thread() is threading.main_thread()
+        if arm:
+            old = signal.signal(signal.SIGVTALRM, self._on_vtalarm)
+            signal.setitimer(signal.ITIMER_VIRTUAL, SPIN_CPU_SECONDS)
+        try:
+            while self._ready:
+                h = self._ready.popleft()
+                if h._cancelled:
+                    continue
+                h._run()
+                n += 1
+                if n > limit:
+                    raise LiveLock(f"more than {limit} callbacks without quiescence")
+                if self.spun:
+                    break
+        except HardSpin:
+            self.spun = True
+        finally:
+            if arm:
+                signal.setitimer(signal.ITIMER_VIRTUAL, 0)
+                signal.signal(signal.SIGVTALRM, old)
         self.steps += n
+        if self.spun:
+            raise LiveLock("a callback never returned to the event loop (spinning coroutine)")
         return n
 
     def next_timer(self):
